@@ -9,3 +9,5 @@ open Biogo.Properties.C01
 #print axioms fastq_roundtrip_plain
 #print axioms fastq_write_count
 #print axioms fastq_score_range
+#print axioms format_a_roundtrip
+#print axioms format_q_roundtrip
